@@ -46,6 +46,7 @@ structure InvL (s : State) : Prop where
   fifo : ∀ c, rcvdOf c s.log ++ (s.ch c).queue = sentOf c s.log
   owners : ∀ m, ownersOf m s.log = (s.mx m).hold.toList
   semCount : ∀ k, acqOf k s.log + (s.sm k).count = (s.sm k).init + relOf k s.log
+  semInit : ∀ k, (s.sm k).init = k          -- the constructor argument `Semaphore(sch, k)` is never written
 
 /-- the structural part: who is registered where, and that a registered waiter implies an
 unavailable resource (code after patches/C18-01..03) -/
